@@ -29,6 +29,8 @@ import (
 	staking "github.com/oasisprotocol/oasis-core/go/staking/api"
 	storage "github.com/oasisprotocol/oasis-core/go/storage/api"
 	"github.com/oasisprotocol/oasis-core/go/storage/mkvs/syncer"
+
+	"verifharness/mut"
 )
 
 // ---------------------------------------------------------------------------------------
@@ -48,11 +50,20 @@ func runFrames(in []byte) outcome {
 	codec := cbor.NewMessageCodec(rw, "c16")
 	var o outcome
 	var parts []any
+	pos := 0
 	for i := 0; i < 64; i++ {
 		var msg protocol.Message
 		if err := codec.Read(&msg); err != nil {
 			parts = append(parts, errDigest(err))
 			break
+		}
+		// the accepted frame must respect the decoder policy for untrusted input
+		if pos+4 <= len(in) {
+			l := int(binary.BigEndian.Uint32(in[pos:]))
+			if l >= 0 && pos+4+l <= len(in) {
+				policy(in[pos+4:pos+4+l], &o)
+				pos += 4 + l
+			}
 		}
 		if o.depth < 1 {
 			o.depth = 1
@@ -175,6 +186,23 @@ func buildFramesGroup() ([]*target, error) {
 		b := make([]byte, 4)
 		binary.BigEndian.PutUint32(b, l)
 		raw.extra = append(raw.extra, seed{fmt.Sprintf("prefix-%d", l), append(b, msgs[0].data...)})
+	}
+	for _, m := range msgs {
+		if m.name == "info-request" {
+			// body -> RuntimeInfoRequest -> local_config is free-form (map[string]any)
+			it, _, _ := mut.Parse(m.data)
+			for i := 0; i+1 < len(it.Kids); i += 2 {
+				if string(m.data[it.Kids[i].HeadEnd:it.Kids[i].End]) != "body" {
+					continue
+				}
+				bodyIt := it.Kids[i+1] // {"RuntimeInfoRequest": {...}}
+				inner := bodyIt.Kids[1]
+				for _, p := range policyProbes(m.data[inner.Start:inner.End], "local_config") {
+					doc := append(append(append([]byte{}, m.data[:inner.Start]...), p.data...), m.data[inner.End:]...)
+					raw.extra = append(raw.extra, seed{p.name, frame(doc)})
+				}
+			}
+		}
 	}
 	withLen := &target{
 		name: "frames-read+len", doc: "input = the CBOR message; the harness prepends the matching length prefix: depths as frames-read",
